@@ -283,6 +283,46 @@ theorem fault_free_batch_is_quiet_and_in_sync (plus : Bool) (s0 : HState) (h0 : 
     simp only [r, quiet, stepH, applyOp_nofaults plus hf, Bool.not_false]
   exact ⟨hq, hq2, every_quiet_batch_is_in_sync plus s0 h0 pre o hc hq⟩
 
+/-- **api_failure_is_local** (Plus). A failing `UpdateHTTPServers` / `UpdateStreamServers` call does not keep the OTHER
+upstreams from being updated: in a batch whose only faults are per-upstream API errors, every upstream of the batch's
+configuration that NGINX knows and whose own call the environment did not fail holds the batch's endpoints afterwards —
+although the batch records an error. (The update loops go on after an error and join the errors.) -/
+theorem api_failure_is_local (s0 : HState) (h0 : s0.ngx.Inv) (pre : List HOp) (o : HOp) (hc : o.conf.WF)
+    (hf : o.faults.replace = false ∧ o.faults.reload = false ∧ o.faults.get = false) :
+    let before := apiBeforeUpdate o (runH true s0 pre).ngx
+    let after := (stepH true (runH true s0 pre) o).1.ngx.api
+    (∀ u ∈ o.conf.http, u.name ∉ o.faults.http → u.name ∈ before.http.keys →
+      SetEq (after.http.servers u.name) (heldHttpExpected true u)) ∧
+    (∀ u ∈ o.conf.stream, u.name ∉ o.faults.stream → u.name ∈ before.stream.keys →
+      SetEq (after.stream.servers u.name) (heldStreamExpected true u)) := by
+  intro before after
+  have hinv : (runH true s0 pre).ngx.Inv := inv_runH_plus pre s0 h0
+  have hnr : o.faults.noReload = false := by simp [Faults.noReload, hf.1, hf.2.1]
+  cases hk : o.kind with
+  | cluster =>
+    have hafter : after = (updateUpstreamServersF o.faults o.conf
+        { (runH true s0 pre).ngx with api := loadPlus o.conf (runH true s0 pre).ngx.state }).1.api := by
+      show (applyOp true o (runH true s0 pre).ngx).1.api = _
+      rw [applyOp_plus_cluster hk]; simp [hnr]
+    have hb : before = loadPlus o.conf (runH true s0 pre).ngx.state := by simp [before, apiBeforeUpdate, hk]
+    rw [hafter, hb]
+    exact updateF_local (x := { (runH true s0 pre).ngx with api := loadPlus o.conf (runH true s0 pre).ngx.state })
+      hc (inv_loadPlus _ hinv.state) hf.2.2
+  | endpoints =>
+    have hafter : after = (updateUpstreamServersF o.faults o.conf (runH true s0 pre).ngx).1.api := by
+      show (applyOp true o (runH true s0 pre).ngx).1.api = _
+      rw [applyOp_plus_endpoints hk]
+    have hb : before = (runH true s0 pre).ngx.api := by simp [before, apiBeforeUpdate, hk]
+    rw [hafter, hb]
+    exact updateF_local hc hinv.api hf.2.2
+
+example :
+    let c1 : Conf := ⟨[⟨"u", [⟨"10.0.0.1", 80, false⟩]⟩, ⟨"v", [⟨"10.0.0.9", 80, false⟩]⟩], []⟩
+    let c2 : Conf := ⟨[⟨"u", [⟨"10.0.0.2", 80, false⟩]⟩, ⟨"v", [⟨"10.0.0.8", 80, false⟩]⟩], []⟩
+    let r := stepH true (runH true HState.init [⟨.cluster, c1, Faults.none⟩]) ⟨.endpoints, c2, ⟨false, false, false, ["u"], []⟩⟩
+    quiet r = false ∧ r.1.ngx.api.http = [("u", ["10.0.0.1:80"]), ("v", ["10.0.0.8:80"])] := by
+  refine ⟨by decide, by decide⟩
+
 /-! ## 5. The "skip when equal to the last generated configuration" variant is refuted -/
 
 /-- **skip_when_equal_to_last_generated_refuted** (seeded change C13-r3m2). Endpoints change A → B, the application
